@@ -156,6 +156,51 @@ fn histories(prop: &str, thorough: bool, seed: u64, rep: &mut Report) {
             if h.len() < depth { for op in &ops { if h.len() + 1 == depth && !thorough && matches!(op, Op::Clone | Op::FromVec | Op::SetAll(..)) { continue; } let mut h2 = h.clone(); h2.push(*op); stack.push(h2); } }
         }
     }
+    if prop == "C06" {
+        rep.checks.push("C06: long random histories over 40 keys (hash index growth / rehash), extend / collect from iterators whose size_hint is not exact".into());
+        let mut rng = Rng(seed.wrapping_mul(0x9E3779B97F4A7C15) | 1);
+        let rounds = if thorough { 60 } else { 12 };
+        for round in 0..rounds {
+            let mut obj = Object::new();
+            let mut m: Vec<(String, RefValue)> = vec![];
+            let nkeys = [3usize, 9, 17, 40][round % 4];
+            let steps = if thorough { 400 } else { 160 };
+            let mut log: Vec<String> = vec![];
+            for step in 0..steps {
+                let k = format!("k{}", rng.below(nkeys));
+                let v = RefValue::Num(step.to_string());
+                match rng.below(10) {
+                    0 | 1 | 2 => { obj.push(k.as_str().into(), to_real(&v)); m.push((k.clone(), v)); log.push(format!("push {}", k)); }
+                    3 => { obj.push_front(k.as_str().into(), to_real(&v)); m.insert(0, (k.clone(), v)); log.push(format!("push_front {}", k)); }
+                    4 => { if !m.is_empty() { let i = rng.below(m.len()); obj.remove_at(i); m.remove(i); log.push(format!("remove_at {}", i)); } }
+                    5 => { let _ = obj.remove(k.as_str()).count(); m.retain(|(k2, _)| k2 != &k); log.push(format!("remove {}", k)); }
+                    6 => { let first = m.iter().position(|(k2, _)| k2 == &k); let _ = obj.insert(k.as_str().into(), to_real(&v)).map(|r| r.count()); match first { Some(i) => { m[i].1 = v.clone(); let mut j = i + 1; while j < m.len() { if m[j].0 == k { m.remove(j); } else { j += 1; } } } None => m.push((k.clone(), v)) } log.push(format!("insert {}", k)); }
+                    7 => { // extend from an iterator whose size_hint lower bound is 0 (filter) / inexact (chain of filters)
+                        let extra: Vec<(String, RefValue)> = (0..rng.below(4)).map(|i| (format!("k{}", rng.below(nkeys)), RefValue::Num(format!("{}", 1000 + i)))).collect();
+                        obj.extend(extra.iter().map(|(k, v)| (json_syntax::object::Key::from(k.as_str()), to_real(v))).filter(|_| true));
+                        m.extend(extra.iter().cloned()); log.push(format!("extend(filter) {}", extra.len())); }
+                    8 => { // rebuild through FromIterator<Entry> from a filtered iterator
+                        let es: Vec<Entry> = obj.entries().to_vec();
+                        obj = es.into_iter().filter(|_| true).collect::<Object>(); log.push("collect(filter)".into()); }
+                    _ => { let es: Vec<Entry> = obj.entries().to_vec(); let mut o2 = Object::new(); o2.extend(es.into_iter().chain(Vec::<Entry>::new()).filter(|_| true)); obj = o2; log.push("extend<Entry>(chain+filter)".into()); }
+                }
+                rep.eval(step > 2, (round as u64) << 32 | step as u64);
+                // full comparison with the list model every few steps and at the end
+                if step % 7 == 0 || step + 1 == steps {
+                    let entries: Vec<(String, RefValue)> = obj.entries().iter().map(entry_ref).collect();
+                    let mut bad: Option<String> = None;
+                    if entries != m { bad = Some("entries differ from the list model".into()); }
+                    for q in 0..nkeys { let key = format!("k{}", q);
+                        let idx: Vec<usize> = m.iter().enumerate().filter(|(_, (k2, _))| k2 == &key).map(|(i, _)| i).collect();
+                        if obj.indexes_of(key.as_str()).collect::<Vec<_>>() != idx { bad = Some(format!("indexes_of({}) = {:?} expected {:?}", key, obj.indexes_of(key.as_str()).collect::<Vec<_>>(), idx)); break; }
+                        if obj.contains_key(key.as_str()) != !idx.is_empty() { bad = Some(format!("contains_key({})", key)); break; }
+                        if obj.get(key.as_str()).count() != idx.len() { bad = Some(format!("get({}) count", key)); break; }
+                    }
+                    if let Some(b) = bad { let tail: Vec<String> = log.iter().rev().take(12).rev().cloned().collect(); rep.violation("object operations == list model", "long-history", format!("{} keys, {} steps; last operations: {:?}", nkeys, step + 1, tail), b); break; }
+                }
+            }
+        }
+    }
     if prop == "C14" {
         rep.checks.push("C14: ordering is a total order consistent with equality (all pairs / triples of reached contents)".into());
         let objs: Vec<(Model, Object)> = by_content.iter().map(|(m, (o, _))| (m.clone(), o.clone())).take(if thorough { 120 } else { 60 }).collect();
@@ -272,6 +317,20 @@ fn unordered(thorough: bool, _seed: u64, rep: &mut Report) {
         if got != want { rep.violation("unordered_eq == multiset equality", "pair", format!("{:?} ~ {:?}", a, b), format!("real={} reference={}", got, want)); }
         if (reals[i] == reals[j]) && !got { rep.violation("== implies unordered_eq", "implied", format!("{:?}", a), "".into()); }
     } }
+    // arrays: same length and pairwise unordered-equal (a prefix is not equal)
+    rep.checks.push("C15: arrays of different lengths, nested".into());
+    { let one = RefValue::Num("1".into()); let two = RefValue::Num("2".into());
+      let oa = RefValue::Obj(vec![("u".into(), one.clone()), ("v".into(), two.clone())]); let ob = RefValue::Obj(vec![("v".into(), two.clone()), ("u".into(), one.clone())]);
+      let arrs = vec![RefValue::Arr(vec![]), RefValue::Arr(vec![one.clone()]), RefValue::Arr(vec![one.clone(), two.clone()]), RefValue::Arr(vec![one.clone(), two.clone(), one.clone()]), RefValue::Arr(vec![oa.clone()]), RefValue::Arr(vec![ob.clone(), one.clone()]), RefValue::Arr(vec![oa.clone(), one.clone()]), RefValue::Arr(vec![ob.clone()])];
+      let mut apool = arrs.clone();
+      for a in &arrs { apool.push(RefValue::Obj(vec![("k".into(), a.clone()), ("n".into(), one.clone())])); apool.push(RefValue::Obj(vec![("n".into(), one.clone()), ("k".into(), a.clone())])); apool.push(RefValue::Arr(vec![a.clone()])); }
+      let areals: Vec<Value> = apool.iter().map(to_real).collect();
+      for (i, a) in apool.iter().enumerate() { for (j, b) in apool.iter().enumerate() {
+          let want = ref_unordered_eq(a, b);
+          let got = areals[i].as_unordered() == areals[j].as_unordered();
+          rep.eval(i != j, 0x7000_0000_0000 | (i as u64) << 16 | j as u64);
+          if got != want { rep.violation("unordered_eq == multiset equality", "array-pair", format!("{:?} ~ {:?}", a, b), format!("real={} reference={}", got, want)); }
+      } } }
     // leaves: numbers are compared by spelling (1.5 is not 1.50), strings exactly, literals
     rep.checks.push("C15: leaves compare by content (number spelling, string text) under unordered_eq".into());
     let leaves: Vec<RefValue> = ["1", "1.0", "1.5", "1.50", "15e-1", "100", "1e2", "0", "-0", "0.0"].iter().map(|n| RefValue::Num(n.to_string())).chain(vec![RefValue::Str("a".into()), RefValue::Str("a ".into()), RefValue::Null, RefValue::Bool(true), RefValue::Bool(false)]).collect();
